@@ -24,7 +24,7 @@ def draw_profile(r, family='ref', **force):
     p['size'] = r.choice((6, 10, 16, 24, 34))
     p['depth'] = r.choice((1, 2, 2, 3))
     p['edepth'] = r.choice((1, 2, 2, 3))
-    p['onerror_mode'] = r.choice(('goto_next', 'goto_next', 'resume_next', 'goto_end'))
+    p['onerror_mode'] = r.choice(('goto_next', 'goto_next', 'resume_next', 'goto_end', 'goto_reraise'))
     p['plant'] = r.random() < 0.35
     p['fold_heavy'] = r.random() < 0.25
     p['final_newline'] = r.random() < 0.8
@@ -240,8 +240,10 @@ class Gen:
         c = []
         if maxrank >= 2:
             c += ['rnd', 'timer']
-        c += ['peek']
+        c += ['peek', 'err']
         k = r.choice(c)
+        if k == 'err':
+            return ['dev', 'err', []]
         if k == 'rnd':
             return r.choice((['dev', 'rnd', []], ['dev', 'rnd', [['lit', '%', 1]]]))
         if k == 'timer':
@@ -591,6 +593,25 @@ class Gen:
     def loop_stmt(self, sc, depth):
         """WHILE / DO loops driven by a dedicated counter so they terminate."""
         r = self.r
+        if r.random() < 0.12:
+            # a loop with an empty body whose condition lives on the LOOP /
+            # WHILE line, ends at its first evaluation and (when device
+            # functions are enabled) makes a device call there
+            if self.p['devfuncs'] and sc.kind == 'main':
+                dv = r.choice((['dev', 'rnd', []], ['dev', 'timer', []],
+                               ['dev', 'peek', [['lit', '%', r.randint(0, 999)]]]))
+            else:
+                dv = ['fn', 'abs', [self.num_leaf(sc, 1)]]
+            t = ['bin', '>=', dv, ['lit', '%', 0]]        # always true
+            f = ['bin', '<', dv, ['lit', '%', 0]]         # always false
+            form = r.choice(('post_until', 'post_while', 'pre_until', 'while'))
+            if form == 'post_until':
+                return [{'k': 'do', 'pre': None, 'post': ['until', t], 'body': []}]
+            if form == 'post_while':
+                return [{'k': 'do', 'pre': None, 'post': ['while', f], 'body': []}]
+            if form == 'pre_until':
+                return [{'k': 'do', 'pre': ['until', t], 'post': None, 'body': []}]
+            return [{'k': 'while', 'cond': f, 'body': []}]
         c = self.new_scalar(sc, '%')
         sc.frozen.add(c)
         n = r.randint(1, 4)
@@ -988,6 +1009,16 @@ class Gen:
             sc.vars[n] = ty
             body.append({'k': 'let', 'lv': ['var', n],
                          'e': ['bin', '+', ['var', n], ['lit', '%', 1]]})
+        if self.p['consts'] and r.random() < 0.4:
+            same = [n for n, t in sorted(self.global_consts.items())]
+            if same and r.random() < 0.5:
+                n = r.choice(same)          # hides the module-level CONST
+                ty = self.global_consts[n]
+            else:
+                ty = r.choice(list(self.num_types) + (['$'] if self.p['strings'] else []))
+                n = self.fresh('k', ty)
+            body.append({'k': 'const', 'name': n, 'e': self.lit(ty)})
+            sc.consts[n] = ty
         if self.p['arrays'] and r.random() < 0.3:
             body += self.dim_array(sc, allow_dyn=False)
         for ty in self.num_types[:2]:
@@ -1038,10 +1069,10 @@ class Gen:
     PLANT_KINDS = ('div0_idiv', 'div0_mod', 'div0_fdiv', 'ovf_int', 'ovf_long',
                    'ovf_conv', 'ovf_mul', 'ovf_neg', 'subscript', 'ill_chr',
                    'ill_chr_hi', 'ill_asc', 'ill_mid', 'ill_space', 'ill_string',
-                   'ill_left', 'ill_instr', 'out_of_data', 'bad_data')
+                   'ill_left', 'ill_instr', 'out_of_data', 'bad_data', 'data_ovf')
     PLANT_TRAP = {'div0': 'DIVISION_BY_ZERO', 'ovf': 'INVALID_CELL_VALUE',
                   'subscript': 'INDEX_OUT_OF_RANGE', 'ill': 'INVALID_OPERAND_VALUE',
-                  'out': 'DEVICE_ERROR', 'bad': 'DEVICE_ERROR'}
+                  'out': 'DEVICE_ERROR', 'bad': 'DEVICE_ERROR', 'data': 'INVALID_CELL_VALUE'}
 
     def plant(self, sc, kind=None, fold=None, depth=None, form=None):
         """Returns (setup statements, failing statement).  With fold=False the
@@ -1049,7 +1080,7 @@ class Gen:
         them; with fold=True they are literals and meet the constant folder."""
         r = self.r
         kinds = [k for k in self.PLANT_KINDS
-                 if (k not in ('out_of_data', 'bad_data') or not self.data_items)
+                 if (k not in ('out_of_data', 'bad_data', 'data_ovf') or not self.data_items)
                  and (self.p['strings'] or not k.startswith('ill_') or k in ('ill_chr', 'ill_chr_hi'))]
         kind = kind or r.choice(kinds)
         fold = (r.random() < 0.3) if fold is None else fold
@@ -1119,11 +1150,13 @@ class Gen:
         elif kind == 'ill_instr':
             e = ['fn', 'instr', [operand('%', 0), ['lit', '$', 'abc'], ['lit', '$', 'b']]]
             ty = '&'
-        elif kind in ('out_of_data', 'bad_data'):
+        elif kind in ('out_of_data', 'bad_data', 'data_ovf'):
             n = self.fresh('z', '%')
             sc.vars[n] = '%'
             if kind == 'bad_data':
                 self.data_items.append('abc')
+            if kind == 'data_ovf':
+                self.data_items.append(r.choice(('70000', '-32769', '3000000000')))
             st = {'k': 'read', 'lvs': [['var', n]], 'plant': kind}
             self.planted_data = True
             self.last_repairs = None
@@ -1182,7 +1215,7 @@ class Gen:
                     and not (p.get('recursive') and q is p['params'][0])]
             if cand:
                 r.choice(cand)[0] = n
-        if onerr in ('goto_next', 'goto_end', 'goto_resume'):
+        if onerr in ('goto_next', 'goto_end', 'goto_resume', 'goto_reraise'):
             hl = self.fresh('hnd')
             main.append({'k': 'onerr', 'mode': 'goto', 'label': hl})
         elif onerr == 'resume_next':
@@ -1221,7 +1254,7 @@ class Gen:
         for _ in range(nplants):
             kind = None
             if onerr == 'goto_resume':
-                kind = r.choice([k for k in self.PLANT_KINDS if k not in ('out_of_data', 'bad_data')])
+                kind = r.choice([k for k in self.PLANT_KINDS if k not in ('out_of_data', 'bad_data', 'data_ovf')])
             pre, st = self.plant(sc, kind=kind, fold=False if onerr == 'goto_resume' else None,
                                  form=r.choice(('let', 'let', 'print')) if self.p.get('plants') else None)
             site = body
@@ -1258,6 +1291,10 @@ class Gen:
         if onerr and r.random() < 0.3:
             main.append({'k': 'onerr', 'mode': 'off'})
             main.append(self.print_stmt(sc, 1))
+        fin = None
+        if subs and r.random() < 0.5:
+            fin = self.fresh('fin')
+            main.append({'k': 'label', 'name': fin})
         main.append(self.print_stmt(sc, 2))
         main.append({'k': 'end'})
         if r.random() < 0.3:
@@ -1273,6 +1310,11 @@ class Gen:
                 # the last routine runs into the end of the program instead of
                 # RETURNing (legal: the program just ends)
                 self.no_return = True
+            elif fin and r.random() < 0.3:
+                # RETURN <label>: always forward, to the tail of the program
+                main.append({'k': 'ifl', 'cond': self.cond(sc, 1),
+                             'then': [{'k': 'return', 'label': fin}], 'els': None})
+                main.append({'k': 'return'})
             else:
                 main.append({'k': 'return'})
         if hl:
@@ -1285,6 +1327,9 @@ class Gen:
             elif onerr == 'goto_resume':
                 main += all_repairs
                 main.append({'k': 'resume', 'next': False})
+            elif onerr == 'goto_reraise':
+                main.append({'k': 'onerr', 'mode': 'off'})
+                main.append({'k': 'end'})
             else:
                 main.append({'k': 'end'})
         if self.data_items:
@@ -1428,7 +1473,11 @@ def const_expr(r, depth, strings=False, vars=()):
     if x < 0.18:
         return ['par', const_expr(r, depth - 1)]
     if x < 0.24:
-        return ['fn', r.choice(('abs', 'cint', 'clng', 'int')), [const_expr(r, depth - 1)]]
+        arg = const_expr(r, depth - 1)
+        if r.random() < 0.3:
+            ty = r.choice('%&')
+            arg = ['bin', '-', ['lit', ty, -32767 if ty == '%' else -2147483647], ['lit', ty, 1]]
+        return ['fn', r.choice(('abs', 'cint', 'clng', 'int')), [arg]]
     return ['bin', r.choice(C_OPS), const_expr(r, depth - 1), const_expr(r, depth - 1)]
 
 
